@@ -351,7 +351,7 @@ def run_case(case, res, log=None):
                     res.tally('interpretation_only:_clean_return_value_differs_from_number_deleted')
                 if deleted:
                     res.witness('pass_that_deleted')
-                    nontrivial = True
+                    nontrivial = nontrivial or pass_no <= 2
                     if len(deleted) > 1:
                         res.witness('pass_that_deleted_several')
                     if any(model.blobs[h].sd for h in deleted):
@@ -359,7 +359,7 @@ def run_case(case, res, log=None):
                     if any(mb(model.blobs[h].size) == 0 and not model.blobs[h].sd for h in deleted):
                         res.witness('sub_megabyte_blob_deleted')
                 if over_before:
-                    nontrivial = True
+                    nontrivial = nontrivial or pass_no <= 2
                     res.witness('over_limit_pass')
                     if not deleted:
                         res.witness('over_limit_but_nothing_removable')
@@ -526,7 +526,8 @@ def run(ctx):
               'used, used+1, 10*used} (negative ones dropped). Each case runs clean(), clean() again, then a new '
               'download + a new network blob and clean() a third time; deletions are attributed to the content / '
               'network half of each clean(). Non-trivial = a case '
-              'in which some pass was over its limit or deleted something.'),
+              'whose own mix and limits (first two clean() calls, before the extra download) put some pass over its '
+              'limit or made it delete something.'),
         exhaustive=True,
         bounds={'max_blobs_per_class': n, 'sizes_MiB': SIZE_NAMES, 'limit_specs': [fmt_l(s) for s in LIMIT_SPECS],
                 'clean_calls_per_case': 3, 'cases': len(cases)},
